@@ -23,6 +23,8 @@ for name, sig, start, end in (
         ("expand_T_S", "f stk expand_all args : expand_T (S f) stk expand_all args =", "  with expand_T (fuel : nat)",
          "  (* the argument dictionary of a template call *)"),
         ("expand_pf_S", "f stk c fn args : expand_pf (S f) stk c fn args =", "  with expand_pf (fuel : nat)", "  with switch_loop (fuel : nat)"),
+        ("build_args_S", "f stk args num ht : build_args (S f) stk args num ht =", "  with build_args (fuel : nat)",
+         "  (* expand_parserfn + call_parser_function"),
         ("switch_loop_S", "f stk val cases match_next next_default defval lastv :\n    switch_loop (S f) stk val cases match_next next_default defval lastv =",
          "  with switch_loop (fuel : nat)", "End Expander.")):
     pat = re.compile(r"(  Lemma %s %s\n).*?(\.\n  Proof\. reflexivity\. Qed\.)" % (name, re.escape(sig)), re.S)
